@@ -1065,6 +1065,15 @@ pub fn fixed_cases() -> Vec<(&'static str, Vec<Vec<Step>>, Vec<Act>)> {
     ("tolerated changes of a required output do not move the stamp the dependency was created with",
      vec![vec![Require(1, 2)], vec![Read(0, 0)]],
      vec![Act::Set(0, 10), Act::TopDown(0), Act::Set(0, 11), Act::TopDown(0), Act::Set(0, 12), Act::TopDown(0), Act::Set(0, 13), Act::TopDown(0)]),
+    // tasks D=0 X=1 Y=2 A=3 F=4 E=5, each reading its own resource 10+id and requiring others depending on the parity of (id + value):
+    // Y, A, F, E are reported; E starts requiring the old, unaffected D, which re-orders the graph (A moves in front of Y) while Y and A
+    // are queued; X, which depends on Y, is then scheduled by F's new output: it must still run after Y
+    ("the queue follows a re-ordering of the graph that happens during the build",
+     vec![vec![Read(10, 0)], vec![Read(11, 0), IfOdd(vec![Require(2, 0), Require(4, 0)], vec![Require(2, 0)])], vec![Read(12, 0)], vec![Read(13, 0), IfOdd(vec![Require(5, 0)], vec![])], vec![Read(14, 0)], vec![Read(15, 0), IfOdd(vec![Require(0, 0)], vec![])]],
+     vec![Act::Set(10, 1), Act::Set(11, 1), Act::Set(12, 1), Act::Set(13, 1), Act::Set(14, 1), Act::Set(15, 1),
+          Act::TopDown(0), Act::TopDown(1), Act::TopDown(3), Act::TopDown(4), Act::TopDown(5),
+          Act::Set(13, 2), Act::Set(11, 2), Act::TopDown(3), Act::TopDown(1),
+          Act::Set(12, 3), Act::Set(13, 4), Act::Set(14, 3), Act::Set(15, 2), Act::BottomUp, Act::TopDown(1), Act::TopDown(3)]),
     // the failing check is the one of a WRITE dependency (all earlier dependencies consistent), top-down and bottom-up
     ("a check that fails for a write dependency",
      vec![vec![Read(0, 0), WriteFlaky(2, 1)], vec![Require(0, 1), Read(2, 0)]],
